@@ -7,10 +7,10 @@ Loops take fuel; running out of fuel is the result `.fuel` (printed `fuel-exhaus
 (`Vec::remove` out of range in `eliminate_single_opt`, case 2) is `.panic`. -/
 namespace ParolModel
 
-inductive Res (α : Type) | ok (a : α) | fuel | panic
+inductive CRes (α : Type) | ok (a : α) | fuel | panic
   deriving Repr
 
-def Res.bind {α β} : Res α → (α → Res β) → Res β
+def CRes.bind {α β} : CRes α → (α → CRes β) → CRes β
   | .ok a, f => f a
   | .fuel, _ => .fuel
   | .panic, _ => .panic
@@ -37,7 +37,7 @@ def splitNumSuffix (nm : Name) : Name × List Char :=
 
 /-- `str::parse::<usize>().unwrap_or(1)` on a non-empty digit string (64-bit target). -/
 def parseUsizeOr1 (ds : List Char) : Nat :=
-  let v := digitsToNat ds
+  let v := digitsToNatE ds
   if v < 2 ^ 64 then v else 1
 
 /-- `gen_name`: count up from `num` until `prefix ++ num` is not excluded. -/
@@ -245,7 +245,7 @@ def groupStep (ps : List EProd) : StepRes :=
 /-! ## the loops -/
 
 /-- `while step(&mut productions) { modified |= true }` -/
-def iterStep (step : List EProd → StepRes) : Nat → List EProd → Bool → Res (List EProd × Bool)
+def iterStep (step : List EProd → StepRes) : Nat → List EProd → Bool → CRes (List EProd × Bool)
   | 0, _, _ => .fuel
   | f+1, ps, m =>
     match step ps with
@@ -256,14 +256,14 @@ def iterStep (step : List EProd → StepRes) : Nat → List EProd → Bool → R
 
 /-- one pass of `trans_fn` = separate_alternatives ; eliminate_repetitions ; eliminate_options ;
     eliminate_groups, threading `modified`. -/
-def pass (ty : GType) (fuel : Nat) (ps : List EProd) : Res (List EProd × Bool) :=
+def pass (ty : GType) (fuel : Nat) (ps : List EProd) : CRes (List EProd × Bool) :=
   (iterStep sepStep fuel ps false).bind fun (ps1, m1) =>
   (iterStep (repStep ty) fuel ps1 m1).bind fun (ps2, m2) =>
   (iterStep optStep fuel ps2 m2).bind fun (ps3, m3) =>
   iterStep groupStep fuel ps3 m3
 
 /-- `while operand.modified { operand.modified = false; operand = trans_fn(operand) }` -/
-def passLoop (ty : GType) (fuel : Nat) : Nat → List EProd → Res (List EProd)
+def passLoop (ty : GType) (fuel : Nat) : Nat → List EProd → CRes (List EProd)
   | 0, _ => .fuel
   | f+1, ps =>
     match pass ty fuel ps with
